@@ -111,7 +111,7 @@ class Runtime:
     def __init__(
         self, handlers: Optional[Mapping[Type[Request], Handler]] = None
     ) -> None:
-        self.handlers = {**_DEFAULT_HANDLERS, **(handlers or {})}
+        self.handlers = {**(handlers or {})}
 
     def handle(
         self,
@@ -172,25 +172,35 @@ class Runtime:
 
         try:
             handler = self.handlers[type(request)]
-        except KeyError as e:
-            raise TypeError(
-                f"No handler for request type {type(request).__qualname__}"
-            ) from e
+        except KeyError:
+            try:
+                handler = _DEFAULT_HANDLERS[type(request)]
+            except KeyError as e:
+                raise TypeError(
+                    f"No handler for request type {type(request).__qualname__}"
+                ) from e
 
         return handler(request)
 
     def __enter__(self):
         with lock:
-            self.previous = _RUNTIMES.get(threading.current_thread())
-            _RUNTIMES[threading.current_thread()] = self
+            thread = threading.current_thread()
+            _PREVIOUS.setdefault(thread, []).append(_RUNTIMES.get(thread))
+            _RUNTIMES[thread] = self
             return self
 
     def __exit__(self, exc_type, exc_value, traceback):
         with lock:
-            _RUNTIMES[threading.current_thread()] = self.previous
-    
+            thread = threading.current_thread()
+            previous = _PREVIOUS[thread].pop()
+            if previous is None:
+                _RUNTIMES.pop(thread, None)
+            else:
+                _RUNTIMES[thread] = previous
+
 
 _RUNTIMES: Dict[threading.Thread, Runtime] = {}
+_PREVIOUS: Dict[threading.Thread, List[Optional[Runtime]]] = {}
 
 
 def current_runtime() -> Runtime:
